@@ -76,6 +76,8 @@ type scenario struct {
 	// "scripted": the servers' leader electors are replaced (hook limiter.VerifSetLeaderElector) by one whose observable
 	// steps are taken one at a time by "el" steps (Leadership.tla)
 	Elector string `json:"elector,omitempty"`
+	// API-backed store: sync period (0 = write-through); with a period, reports leave conditions to be flushed when the store stops
+	StoreSyncMs int `json:"storeSyncMs,omitempty"`
 }
 
 // scriptedElector mirrors limiter/elector.leaderElector (leaderInfo + callbacks) but takes its steps when told to
@@ -188,6 +190,20 @@ type world struct {
 	insts   map[string]map[string]bool             // up -> instances ever seen
 	events  []ev
 	mu      sync.Mutex
+	failStore bool // writes of RateLimitConditions to the API fail (steps failstore / healstore)
+}
+
+// does server s hold an unexpired lease of the shard of `up` right now (the election's ground truth in the API)?
+func (w *world) leaseOK(s *server, up string) bool {
+	if s.el != nil {
+		return true // scripted elector: no lease objects
+	}
+	sh := rlutil.GetShardID(up, w.sc.Shards)
+	l, err := w.kube.CoordinationV1().Leases("kube-system").Get(context.TODO(), fmt.Sprintf("kube-gateway-ratelimiter-%d", sh), metav1.GetOptions{})
+	if err != nil || l.Spec.HolderIdentity == nil || *l.Spec.HolderIdentity != s.name || l.Spec.RenewTime == nil || l.Spec.LeaseDurationSeconds == nil {
+		return false
+	}
+	return time.Now().Before(l.Spec.RenewTime.Add(time.Duration(*l.Spec.LeaseDurationSeconds) * time.Second))
 }
 
 func (w *world) leaderOf(up string) *server {
@@ -346,6 +362,7 @@ func (w *world) doStep(st step) {
 		pre := w.observe(s, st.Up)
 		e["pre"] = pre
 		w.shardInfo(e, s, st.Up)
+		e["leaseok"] = w.leaseOK(s, st.Up)
 		before := w.allState(st.Up)
 		ans, err := s.rl.UpdateRateLimitConditionStatus(st.Up, cond)
 		e["changed"] = before != w.allState(st.Up)
@@ -396,6 +413,7 @@ func (w *world) doStep(st step) {
 		e := ev{"k": "acquire", "srv": s.name, "up": st.Up, "inst": st.Inst, "tokens": st.Tokens, "id": st.ID, "type": w.ups[st.Up].Type,
 			"now": time.Now().UnixMilli(), "leader": w.leaderOf(st.Up) == s}
 		w.shardInfo(e, s, st.Up)
+		e["leaseok"] = w.leaseOK(s, st.Up)
 		before := w.allState(st.Up)
 		res, err := s.rl.DoAcquire(st.Up, req)
 		e["changed"] = before != w.allState(st.Up)
@@ -504,6 +522,11 @@ func (w *world) doStep(st step) {
 		s.el.step(st.Op, st.Shard)
 		synctest.Wait()
 		w.add(ev{"k": "el", "srv": s.name, "op": st.Op, "shard": st.Shard})
+	case "failstore", "healstore":
+		w.mu.Lock()
+		w.failStore = st.K == "failstore"
+		w.mu.Unlock()
+		w.add(ev{"k": st.K})
 	case "failrenew":
 		*w.srv(st.Srv).failed = true
 		w.add(ev{"k": "failrenew", "srv": w.srv(st.Srv).name})
@@ -528,6 +551,15 @@ func runScenario(t *testing.T, sc scenario) []ev {
 		}
 		w.gw = gatewayfake.NewSimpleClientset(objs...)
 		w.kube = kubefake.NewSimpleClientset()
+		w.gw.PrependReactor("*", "ratelimitconditions", func(a clienttesting.Action) (bool, runtime.Object, error) {
+			w.mu.Lock()
+			bad := w.failStore && (a.GetVerb() == "update" || a.GetVerb() == "create" || a.GetVerb() == "delete")
+			w.mu.Unlock()
+			if bad {
+				return true, nil, fmt.Errorf("injected: the API refuses to write rate limit conditions")
+			}
+			return false, nil, nil
+		})
 		if len(sc.Servers) == 0 {
 			sc.Servers = []string{"A"}
 			w.sc.Servers = sc.Servers
@@ -555,7 +587,7 @@ func runScenario(t *testing.T, sc scenario) []ev {
 			return false, nil, nil
 		})
 		for _, n := range sc.Servers {
-			opts := options.RateLimitOptions{ShardingCount: sc.Shards, LimitStore: sc.Store, Identity: n,
+			opts := options.RateLimitOptions{ShardingCount: sc.Shards, LimitStore: sc.Store, Identity: n, K8sStoreSyncPeriod: time.Duration(sc.StoreSyncMs) * time.Millisecond,
 				LeaderElectionConfiguration: componentbaseconfig.LeaderElectionConfiguration{
 					LeaderElect: true, ResourceLock: "leases", ResourceNamespace: "kube-system", ResourceName: "kube-gateway-ratelimiter",
 					LeaseDuration: metav1.Duration{Duration: 15 * time.Second}, RenewDeadline: metav1.Duration{Duration: 10 * time.Second},
